@@ -4,6 +4,10 @@ import json, os, subprocess
 ROOT = os.path.dirname(os.path.dirname(os.path.abspath(__file__)))
 
 CHECKS = {
+    "C02": dict(level="model_checking", design="DESIGN.md section 5 C02",
+                technique="TLA+ rewrite rules (Rewrite.tla) applied and proved output-preserving per instance by TLC on Core.tla; real interpreter compared with itself on both spellings",
+                text="TLC enumerates every (program, rule, site) over the base programs and seven rules (FOR as WHILE with sign-tested hidden limit/step, WHILE as DO WHILE, DO UNTIL c as DO WHILE NOT c, SELECT CASE as IF/ELSEIF chain with the subject bound once, block IF as single-line IF, FOR without STEP as STEP 1, loop body wrapped in IF -1), runs the reference semantics on both spellings (so an instance is only used when the rule is sound for it in the oracle) and emits the rewritten program; the driver runs the real interpreter on both texts and compares output, outcome and error code.",
+                note="Trusted: renderer, TLC. Programs embedded in the repository's tests are not rewritten in this round (no text->mini-AST converter); generated programs from the C01/C03/C05 families are."),
     "C14": dict(level="model_checking", design="DESIGN.md section 5 C14",
                 technique="TLA+ reference semantics (Core.tla CONST evaluated by the same Values operators as run-time expressions); TLC validates CONST / run-time / inlined programs",
                 text="Every constant expression of the bounded family is run three ways on the real code - CONST c = e : PRINT c (and c + c), PRINT (e), and programs where each use of a constant is replaced by its defining expression - at module and subprogram level; TLC validates each run against Core.tla, so the CONST value, its type (through overflow behaviour and the suffix acceptance probe) and static rejection (which must coincide with the run-time error 6/11) are all decided by the spec.",
